@@ -2705,8 +2705,8 @@ fn core_word_assert_eq(xs: &mut State) -> Xresult {
 }
 
 fn core_word_exit(xs: &mut State) -> Xresult {
-    xs.about_to_stop = true;
     let code = xs.pop_data()?.to_isize()?;
+    xs.about_to_stop = true;
     Err(Xerr::Exit(code))
 }
 
